@@ -116,6 +116,8 @@ class CallMixin(CompMixin):
             return VBool(self.isinstance_t(st, a[0], a[1]))
         if name == "hasattr":
             ok, nm = pyconst(a[1])
+            if isinstance(a[0], VDyn):
+                return VBool(t_or(*[a[0].tag == i for i, (ty, x) in enumerate(a[0].alts) if self.hasattr(st, x, nm)]))
             return VBool(self.hasattr(st, a[0], nm))
         if name == "getattr":
             ok, nm = pyconst(a[1])
